@@ -160,7 +160,17 @@ STMT_CORES.update({
     "generic_result_variables_swapped": ("pq: (Ty__1, Ty__2) = pair(1, \"s\")", HOF, lambda S, I: z3.Not(z3.And(I("ty1", "str"), I("ty2", "int")))),
     "generic_result_variable_used_as_operand": ("au :: ap(tos, 1) + __lit1", HOF, lambda S, I: z3.Not(I("lit1", "str"))),
 })
-GENERIC_LITS = {"generic_argument_variable_shared_with_a_function_parameter": ["int", "str", "bool"], "generic_result_variable_used_as_operand": ["int", "str", "float"],
+_differ = lambda S, I: z3.Not(z3.Or([z3.And(I("lit1", k), I("lit2", k)) for k in S["lit1"][1]]))
+STMT_CORES.update({
+    # one type node at several positions of both sides, crossed: (p, q, p) against (k1, x, x) compares p with x in the last position
+    "crossed_shared_components_in_assignment": ("cp := __lit1\ncq := __lit2\ncx := __lit2\ncl := (cp, cq, cp)\ncl = (__lit1, cx, cx)", "", _differ),
+    "crossed_shared_components_in_list": ("dp := __lit1\ndq := __lit2\ndx := __lit2\ndl := [(dp, dq, dp), (__lit1, dx, dx)]", "", _differ),
+    "crossed_shared_components_in_call": ("ex := __lit2\ncg((__lit1, ex, ex))", "cg :: fn t: (*T, *U, *T) -> *T do\n    ret t[0]\nend\n", _differ),
+    "crossed_function_types": ("fh: fn *X, *Y -> *Y = fn a: __lit1kind, b: __lit2kind -> __lit2kind do ret b end", "", None),
+})
+del STMT_CORES["crossed_function_types"]
+GENERIC_LITS = {"crossed_shared_components_in_assignment": ["int", "str", "bool"], "crossed_shared_components_in_list": ["int", "str", "bool"], "crossed_shared_components_in_call": ["int", "str", "bool"],
+                "generic_argument_variable_shared_with_a_function_parameter": ["int", "str", "bool"], "generic_result_variable_used_as_operand": ["int", "str", "float"],
                 "compound_sub_between_aliases": ["int", "float", "str", "bool"], "compound_mul_after_comparison": ["int", "str", "bool"], "compound_sub_on_blob_field": ["int", "str", "bool"], "compound_add_between_aliases": ["int", "str", "bool"],
                 "generic_tuple_local_not_returned": ["int", "float", "str", "bool"], "generic_inner_closure_and_outer_parameter": ["int", "str", "bool"], "operand_through_self": ["int", "str", "float"],
                 "void_inside_tuple_literal": ["int", "str", "void"], "void_inside_list_literal": ["int", "str", "void"], "generic_tuple_result_unused_call": ["int", "float", "str"], "generic_tuple_result_in_tuple_literal": ["int", "float", "str"], "generic_tuple_result_trailing_in_closure": ["int", "str"],
@@ -181,7 +191,7 @@ CORES["binop_nested"] = (CORES["binop_nested"][0], "", spec_binop_nested, {})
 CORES["void_in_variable"] = (CORES["void_in_variable"][0], "", spec_void_var, {})
 
 # cores whose mismatch table is written for the literal kinds listed in GENERIC_LITS only (tuples and lists have element-wise rules of their own): same kinds in both tiers
-SPEC_KINDS_FIXED = {"generic_argument_variable_shared_with_a_function_parameter", "generic_result_variable_used_as_operand", "generic_tuple_result_unused_call", "generic_tuple_result_in_tuple_literal", "generic_tuple_result_trailing_in_closure", "generic_tuple_negation_unused_call", "generic_tuple_negation_stored",
+SPEC_KINDS_FIXED = {"crossed_shared_components_in_assignment", "crossed_shared_components_in_list", "crossed_shared_components_in_call", "generic_argument_variable_shared_with_a_function_parameter", "generic_result_variable_used_as_operand", "generic_tuple_result_unused_call", "generic_tuple_result_in_tuple_literal", "generic_tuple_result_trailing_in_closure", "generic_tuple_negation_unused_call", "generic_tuple_negation_stored",
                     "compound_sub_between_aliases", "compound_mul_after_comparison", "compound_sub_on_blob_field", "compound_add_between_aliases", "generic_tuple_local_not_returned",
                     "generic_inner_closure_and_outer_parameter", "operand_through_self", "void_inside_tuple_literal", "void_inside_list_literal"}
 _CTX = {}
